@@ -1,7 +1,6 @@
 /-
   Property C02 — each STV/IRV/SequentialRCV round is a legal step of the documented count.
 -/
-import VK.Props.Kernels
 import VK.Model.STV
 import VK.Lemmas.Sum
 import VK.Lemmas.Legal
